@@ -30,7 +30,7 @@ theorem c18_rows_perm (rs : List Run) :
   · have := fullRows_length rs
     simp only [fullRows] at this
     simp only [table]
-    split <;> simp [this, sortedRuns, (List.mergeSort_perm rs keyLe).length_eq]
+    split <;> simp [sortedRuns, (List.mergeSort_perm rs keyLe).length_eq]
   · simp only [table]
     split
     · exact ⟨id, by simp⟩
@@ -58,8 +58,8 @@ theorem c18_cells_position (r : Run) (h : r.ident.length = 9) :
     (cells r)[9]? = some (samplesCell r) ∧ (cells r)[10]? = some (meanCell r) ∧
     ∀ i, i < 9 → (cells r)[i]? = (r.ident[i]?).map .str := by
   refine ⟨?_, ?_, ?_⟩
-  · simp [cells, List.getElem?_append, h]
-  · simp [cells, List.getElem?_append, h]
+  · simp [cells, h]
+  · simp [cells, h]
   · intro i hi
     simp [cells, List.getElem?_append, h, hi]
 
@@ -165,10 +165,10 @@ theorem c18_columns_moved_not_dropped (rs : List Run) (hw : ∀ r ∈ rs, r.iden
       refine ⟨by simp [keptAt, hsmall, hk'], row0[i]'(by omega), ?_, ?_⟩
       · rw [htab]
         refine summaryOf_mem _ _ _ i _ _ hm (List.getElem?_eq_getElem hi).symm.symm ?_
-        rw [hrows]; simpa using hc0
+        rw [hrows]; simp [hc0]
       · intro row hrow
         have := uniformAt_spec i (fullRows rs) huni row hrow
-        rw [this, hrows]; simpa using hc0
+        rw [this, hrows]; simp [hc0]
 
 /-- the last column (the mean) is always a table column -/
 theorem c18_last_column_kept (rs : List Run) : keptAt rs (colNames.length - 1) = true := by
